@@ -276,10 +276,17 @@ def generate(rng, tier):
     for _ in range(nops):
         pi = rng.randrange(nparsers)
         ops.append(gen_op(rng, pi, parsers[pi]["feats"]))
+    dcf_parsers = [i for i, p in enumerate(parsers) if "dcf" in p["feats"]]
+    if dcf_parsers and rng.random() < 0.35:
+        # an output-printing call, then the default config file changes, then calls that read defaults again:
+        # whatever the printing call cached from the old file shows
+        pi = rng.choice(dcf_parsers)
+        first = rng.choice([{"kind": "args", "argv": ["--help"]}, {"kind": "args", "argv": ["--print_config"]}, {"kind": "defaults"}, {"kind": "dump", "argv": [], "kw": {"skip_default": True}}])
+        ops += [dict(first, p=pi), {"p": pi, "kind": "edit", "file": "dflt.yaml", "text": rng.choice(FILE_ALTS["dflt.yaml"])}, {"p": pi, "kind": "defaults"}, {"p": pi, "kind": "args", "argv": []}]
     if rng.random() < (0.6 if not big else 1.0):
         pi = rng.randrange(nparsers)
         ops += [dict(b, p=pi) for b in rng.sample(BATTERY, rng.randint(2, 4))]
-        nops = len(ops)
+    nops = len(ops)
     world = {
         "dirs": ["home", "run"],
         "files": {
